@@ -327,7 +327,7 @@ Qed.
 (* a Device-Watchdog-Answer *)
 Definition isdwa (m : msg) : bool := cmd_eqb (m_cmd m) DW && negb (m_req m).
 
-Lemma rm_n0_kq cid n m : kq cid n (NodeB.rm_n0 n m).
+Lemma rm_n0_kq cid n j m : kq cid n (NodeB.rm_n0 n j m).
 Proof.
   apply kq_same; [apply NodeB.rm_n0_conns| |];
     unfold NodeB.rm_n0, NodeB.rm_record; destruct (m_origin m), (m_req m); reflexivity.
@@ -335,8 +335,8 @@ Qed.
 
 Lemma receive_message_c cid n j m : (j = cid -> isdwa m = false) -> cres cid n (receive_message n j m).
 Proof.
-  intros Hd. rewrite NodeB.receive_message_unfold. eapply cres_pre; [apply (rm_n0_kq cid n m)|].
-  set (n0 := NodeB.rm_n0 n m). clearbody n0.
+  intros Hd. rewrite NodeB.receive_message_unfold. eapply cres_pre; [apply (rm_n0_kq cid n j m)|].
+  set (n0 := NodeB.rm_n0 n j m). clearbody n0.
   destruct (if m_req m && g_validate (n_cfg n0) then m_missing m else []); [|apply send_message_c, calmm_answer].
   destruct (NodeB.rm_dup n0 m); [apply send_message_c, calmm_answer|].
   unfold NodeB.rm_handle, isdwa in *. destruct (m_req m), (m_cmd m); cbn [cmd_eqb negb andb] in Hd.
